@@ -1,6 +1,7 @@
 import LnModel.Sexp
 import LnModel.Ident
 import LnModel.FsExec
+import LnModel.Adapters
 /-! Line-protocol driver: one s-expression request per line on stdin, one canonical
 s-expression result per line on stdout. -/
 namespace Ln.Driver
@@ -47,6 +48,59 @@ def outsOf : Sexp → Option (List Write)
       | _ => none
   | _ => none
 
+def intOf : Sexp → Option Int
+  | .atom a => a.toInt?
+  | _ => none
+
+def wireOf : Sexp → Option Wire
+  | .list [.atom "int", n] => (intOf n).map .int
+  | .list [.atom "float"] => some .float
+  | .list [.atom "str", .str s] => some (.str s)
+  | .list [.atom "null"] => some .null
+  | .list [.atom "other"] => some .other
+  | _ => none
+
+def wireTo : Wire → Sexp
+  | .int n => .list [.atom "int", .atom (toString n)]
+  | .float => .list [.atom "float"]
+  | .str s => .list [.atom "str", .str s]
+  | .null => .list [.atom "null"]
+  | .other => .list [.atom "other"]
+
+def optIntOf : Sexp → Option (Option Int)
+  | .list [.atom "none"] => some none
+  | .list [.atom "some", n] => (intOf n).map some
+  | _ => none
+
+def optDateOf : Sexp → Option (Option Date)
+  | .list [.atom "none"] => some none
+  | .list [.atom "some", y, m, d] => do pure (some ⟨← intOf y, ← intOf m, ← intOf d⟩)
+  | _ => none
+
+def deErrName : DeErr → String
+  | .invalidType => "invalidType"
+  | .invalidValue => "invalidValue"
+
+def resInt : Except DeErr (Option Int) → Sexp
+  | .ok none => .list [.atom "ok", .list [.atom "none"]]
+  | .ok (some i) => .list [.atom "ok", .list [.atom "some", .atom (toString i)]]
+  | .error e => .list [.atom "err", .atom (deErrName e)]
+
+def resDate : Except DeErr (Option Date) → Sexp
+  | .ok none => .list [.atom "ok", .list [.atom "none"]]
+  | .ok (some d) => .list [.atom "ok", .list [.atom "some", .atom (toString d.y), .atom (toString d.m), .atom (toString d.d)]]
+  | .error e => .list [.atom "err", .atom (deErrName e)]
+
+def stepAdapters (req : Sexp) : Option Sexp :=
+  match req with
+  | .list [.atom "nz_de", w] => (wireOf w).map fun w => resInt (nzDe w)
+  | .list [.atom "nz_ser", v] => (optIntOf v).map fun v => wireTo (nzSer v)
+  | .list [.atom "str_de", w] => (wireOf w).map fun w => resInt (strDe w)
+  | .list [.atom "str_ser", v] => (optIntOf v).map fun v => wireTo (strSer v)
+  | .list [.atom "date_de", w] => (wireOf w).map fun w => resDate (dateDe w)
+  | .list [.atom "date_ser", v] => (optDateOf v).map fun v => wireTo (dateSer v)
+  | _ => none
+
 def stepFs (req : Sexp) : Option Sexp :=
   match req with
   | .list [.atom "run", t, .list (.atom "gens" :: gs)] => do
@@ -67,7 +121,7 @@ def stepFs (req : Sexp) : Option Sexp :=
   | _ => none
 
 def step (req : Sexp) : Sexp :=
-  match stepFs req with
+  match (stepFs req).orElse (fun _ => stepAdapters req) with
   | some r => r
   | none =>
   match req with
